@@ -1,0 +1,28 @@
+//go:build verif
+
+// Contracts for package internal (xy helpers), read by /verif's govc. Comment-only.
+package internal
+
+//@ func Distance2D
+//@   floats real
+//@   requires len(c1) >= 2 && len(c2) >= 2
+//@   ensures res >= 0.0 && res * res == (c1[0]-c2[0])*(c1[0]-c2[0]) + (c1[1]-c2[1])*(c1[1]-c2[1])
+//@   modifies nothing
+
+//@ func DoLinesOverlap
+//@   floats real
+//@   requires len(line1End1) >= 2 && len(line1End2) >= 2 && len(line2End1) >= 2 && len(line2End2) >= 2
+//@   ensures res <==> (min(line1End1[0], line1End2[0]) <= max(line2End1[0], line2End2[0]) && max(line1End1[0], line1End2[0]) >= min(line2End1[0], line2End2[0]) && min(line1End1[1], line1End2[1]) <= max(line2End1[1], line2End2[1]) && max(line1End1[1], line1End2[1]) >= min(line2End1[1], line2End2[1]))
+//@   modifies nothing
+
+//@ func IsPointWithinLineBounds
+//@   floats real
+//@   requires len(p) >= 2 && len(lineEndpoint1) >= 2 && len(lineEndpoint2) >= 2
+//@   ensures res <==> (min(lineEndpoint1[0], lineEndpoint2[0]) <= p[0] && p[0] <= max(lineEndpoint1[0], lineEndpoint2[0]) && min(lineEndpoint1[1], lineEndpoint2[1]) <= p[1] && p[1] <= max(lineEndpoint1[1], lineEndpoint2[1]))
+//@   modifies nothing
+
+//@ func Equal
+//@   floats real
+//@   requires 0 <= start1 && start1 + 1 < len(coords1) && 0 <= start2 && start2 + 1 < len(coords2)
+//@   ensures res <==> (coords1[start1] == coords2[start2] && coords1[start1+1] == coords2[start2+1])
+//@   modifies nothing
